@@ -4,7 +4,7 @@
    swap's parameters.  Monitor on the cases of the C03 harness (real validators on generated opening transactions,
    among them the amount and the script on different outputs). *)
 From Coq Require Import String ZArith NArith Bool List.
-From PS Require Import Base.Corr Base.ScriptOps Model.ScriptInterp Model.Tx Model.C03Corr.
+From PS Require Import Base.Corr Base.Wrap Base.ScriptOps Model.ScriptInterp Model.Tx Model.C03Corr.
 Import ListNotations.
 Open Scope Z_scope.
 
@@ -12,7 +12,9 @@ Definition c01_btc_validator_ok (i : btc_in) (o : btc_obs) : bool :=
   if bo_validated o then
     match bi_opening i with
     | Some (_, outs) =>
-        existsb (fun x => (o_value x =? bi_amount i) && bytes_eqb (o_script x) (bi_want i)) outs
+        (* the validator compares int64 values: an amount >= 2^63 (no such output can exist on chain) is
+           compared through the same conversion *)
+        existsb (fun x => (o_value x =? i64 (bi_amount i)) && bytes_eqb (o_script x) (bi_want i)) outs
     | None => false
     end
   else true.
